@@ -57,6 +57,7 @@ let run fence fill =
           List.iter (fun kv -> match String.split_on_char '=' kv with
               | ["live_blocks"; v] -> if v <> "0" then diverge "upstream blocks not returned" line
               | ["errors"; v] -> if v <> "0" then diverge "upstream release mismatch" line
+              | ["stale_writes"; v] -> if v <> "0" then diverge "write into memory already returned upstream" line
               | _ -> ()) rest
         | _ -> ())
      done
